@@ -230,6 +230,23 @@ func (l *vfLink) feed(p []byte) {
 	}
 }
 
+// feedRaw passes bytes through without the protocol tap: one call is one read for the receiver (used when the harness
+// plays the remote shell, where "within one read" matters and there are no protocol messages to number).
+func (l *vfLink) feedRaw(p []byte) {
+	if len(p) == 0 {
+		return
+	}
+	l.mu.Lock()
+	if l.record {
+		l.rec.Write(p)
+	}
+	off := l.off
+	l.off += int64(len(p))
+	l.lastAt = time.Now()
+	l.mu.Unlock()
+	l.deliver(p, off)
+}
+
 func vfClassify(line []byte) (string, string) {
 	txt := string(line)
 	if len(txt) > 48 {
